@@ -1,0 +1,50 @@
+// Copyright 2020-2025 Buf Technologies, Inc.
+//
+// Licensed under the Apache License, Version 2.0 (the "License");
+// you may not use this file except in compliance with the License.
+// You may obtain a copy of the License at
+//
+//      http://www.apache.org/licenses/LICENSE-2.0
+//
+// Unless required by applicable law or agreed to in writing, software
+// distributed under the License is distributed on an "AS IS" BASIS,
+// WITHOUT WARRANTIES OR CONDITIONS OF ANY KIND, either express or implied.
+// See the License for the specific language governing permissions and
+// limitations under the License.
+
+//go:build verif
+
+package bufmodule
+
+// Contracts for the gocv verifier (see /verif/DESIGN.md). Comment-only. (author ca-U)
+//
+// C09, module data and commits as read from a cache. The accessor contracts of moduleData (digest check first, its error
+// and no content on a mismatch) and of the checkDigest closure of newModuleData are in zz_verif_contracts.go (C09 block);
+// this file has the constructors and what the commit store needs.
+//@ pure func (m *moduleData) ModuleKey() (r)
+//@   property C09
+//@   ensures r == m.moduleKey
+//
+// NewModuleData stores the key it is given (trusted: the link between the ModuleData interface accessor and *moduleData is
+// dynamic dispatch, which the engine does not model - `r.ModuleKey()` on the interface value is an uninterpreted accessor;
+// the two halves are verified: newModuleData#post[for-key] and (*moduleData).ModuleKey above).
+//@ trusted func NewModuleData(ctx, moduleKey, getBucket, getDepModuleKeys, getV1BufYAMLObjectData, getV1BufLockObjectData) (r)
+//@   ensures r != nil && r.ModuleKey() == moduleKey
+//
+// Commits read from the commit cache: when the reader pins a digest (CommitWithExpectedDigest, used by the commit store with the
+// digest of the requesting ModuleKey), the returned Commit's ModuleKey yields its digest only if it equals the pinned one,
+// and otherwise a DigestMismatchError (closure 0 is the wrapping digest function).
+//@ func newCommit(moduleKey, getCreateTime, options) (r)
+//@   property C09
+//@   modifies heap
+//@   ensures r != nil
+//@   closure 0 ensures true
+//@   assert before "return moduleKeyDigest, nil" cached-digest-equals-pinned: DigestEqual(commitOptions.expectedDigest, moduleKeyDigest)
+//@   assert before "return nil, &DigestMismatchError" mismatch-only: !DigestEqual(commitOptions.expectedDigest, moduleKeyDigest)
+//@ func NewCommit(moduleKey, getCreateTime, options) (r)
+//@   property C09
+//@   modifies heap
+//@   ensures r != nil
+//
+//@ pure func (d DigestType) String() (r)
+//@   property C09
